@@ -6,7 +6,7 @@ CFG = P(
         ldflags=["-lcrypto"],
         oracle="C10",
         variants={
-            "preempt": dict(harness=["harness/C10_preempt.cc"], src_cxxflags={"Hash.cc": ["-fsanitize-coverage=trace-pc"]}, tiers=["quick", "thorough"]),
+            "preempt": dict(harness=["harness/C10_preempt.cc"], src_cxxflags={"Hash.cc": ["-fsanitize-coverage=trace-pc"]}, harness_deps_extra=["engine/preempt.hh"], no_tls=["Hash.cc"], first=True, tiers=["quick", "thorough"]),
         },
         rule="a case is one (function, length, fill pattern) triple, one (function, input, split point[s], overload combination set) tuple, one call HISTORY (2-3 calls, or a whole sweep over all "
              "lengths, executed inside the case), one (function, overload, storage, content sequence) tuple, one (seed with its prefix witness, overload, suffix) tuple, one (function, overload, "
